@@ -3,9 +3,10 @@ CONSTANTS
  HistLen = 2
  LenientRelabel = FALSE
  NeedGraph = FALSE
- RestartSets = {{1}}
-INIT RInit
-NEXT RNext
-INVARIANT Transparent
-INVARIANT SelfCheck
+ RestartSets = {{}}
+ Pinned = TRUE
+INIT IInit
+NEXT INext
+VIEW View
+INVARIANT EmitCrash
 CHECK_DEADLOCK FALSE
